@@ -21,6 +21,12 @@ THEOREMS = [
     "C11.set_config_must_clear",
     "C11.aggregate_needs_memo_off",
     "C11.hit_skips_derivation",
+    # U09: negated goals, knowledge-base edits and rebuild_index inside the engine model
+    "C11.key_needs_kb_version",
+    "C11.rebuild_must_clear",
+    "C11.fresh_index_search_eq_new",
+    "C11.after_rebuild_eq_new",
+    "C11.kb_edit_moves_version_or_noop",
 ]
 LEAN_TARGETS = ["RreModel.C11.Theorems", "RreModel.C11.Theorems2"]
 N = {"quick": 1500, "thorough": 10000}
@@ -65,16 +71,21 @@ RULE = ("cases = corpus + N histories on ONE BackwardEngine: 2..6 queries (mostl
 TRUSTED = [
     "Lean 4.33 kernel; axioms of every property theorem within {propext, Classical.choice, Quot.sound} (audited each run)",
     "hand-written cache model RreModel/C11/Model.lean tied to backward_engine.rs / goal.rs by evaluating it on observed keys (differential testing)",
-    "hand-written engine model RreModel/C11/Engine.lean (query / set_config / query_aggregate over C09's search model and candidate "
-    "computation) tied to backward_engine.rs by predicting answer, hit and facts-after of every call of generated histories "
-    "(differential testing, set-valued over HashSet orders); engine_refines_cache_model proves it refines the cache model",
-    "key injectivity: the fixed key renders (query, max_solutions, facts sorted by name, Debug of each value); the model keys by these "
+    "hand-written engine model RreModel/C11/Engine.lean (query of plain and negated goals / set_config / query_aggregate / knowledge-base "
+    "edits / rebuild_index over C09's search model, history model C09/Hist.lean and candidate computation) tied to backward_engine.rs by "
+    "predicting answer, hit and facts-after of every call of generated histories (differential testing, set-valued over HashSet orders); "
+    "engine_refines_cache_model proves it refines the cache model",
+    "key injectivity: the fixed key renders (query, max_solutions, kb.version(), facts sorted by name, Debug of each value); the model keys by these "
     "components (keyCode); that the TEXT determines them (query text -> atom, Debug injective on the values used) is assumed",
     "harness/src/bin/c11.rs (fresh-engine comparison, deep copy of the facts), Driver/C11.lean glue, check.py",
 ]
 ASSUMPTIONS = [
-    "the rule set of an engine does not change during a history (KnowledgeBase::add_rule through engine.knowledge_base() + rebuild_index "
-    "is outside the quantifier; the memo key does not contain the rules and rebuild_index does not empty the cache)",
+    "knowledge-base edits are add_rule / remove_rule / set_rule_enabled / clear through engine.knowledge_base() on rules of equal salience "
+    "(get_rules() = insertion order; KnowledgeBase itself is C15's subject: C09.kbStep mirrors it - the version moves iff the edit changes "
+    "something, set_rule_enabled of a known rule always counts)",
+    "negated goals `NOT F <op> null` are outside the engine model: for a negated goal check_goal_in_facts evaluates the parsed expression "
+    "(an absent field IS Null there), C09.evalAtom reads an absent field as `only != holds`; the two differ exactly for the literal null "
+    "(found by this tie; C09's negated cases have no Null literal) - the fresh-engine oracle and the cache model still judge those calls",
     "every call of one history that is compared by the list equation engine_history_eq_fresh enumerates its candidate HashSet alike; "
     "engine_history_admissible / engine_history_fresh drop that (verdict = a fresh verdict for one of the enumerations used)",
     "RETE engine attached: the search objects and their proof graph are built inside every call (new_with_engine -> new_shared()) and "
@@ -142,10 +153,17 @@ def classify(case, impl, model, oracle, kind):
             return "engine-model:" + what
     return "engine-model:shape"
 
-LEVEL_TEXT = ("ENGINE WITH THE CONCRETE SEARCH (Theorems2.lean; unbounded: every naming, rule set, configuration, initial facts, history of "
-              "caller-side fact changes / set_config / query / query_aggregate / rejected aggregate): engine_history_eq_fresh — the verdicts of "
-              "one engine (memo cache + C09.query + C09.topCandidates / subCandidates) are call by call those of freshly built engines, "
-              "i.e. of C09.query on that step's rules / facts / configuration (fresh_query_is_C09_query); engine_history_admissible / "
+LEVEL_TEXT = ("ENGINE WITH THE CONCRETE SEARCH (Theorems2.lean; unbounded: every naming, initial rule state (knowledge base + index), configuration, "
+              "initial facts, history of caller-side fact changes / set_config / query of plain and NEGATED goals / query_aggregate / rejected "
+              "aggregate / KNOWLEDGE-BASE EDITS (add_rule, remove_rule, set_rule_enabled, clear) / rebuild_index): engine_history_eq_fresh — the "
+              "verdicts of one engine (memo cache keyed by kb version, query, max_solutions, facts + C09.query / C09.queryNeg on the enabled live rules "
+              "with C09.topCandsHist / subCandsHist) are call by call those of freshly built engines — built on the rule set as it is at that step, "
+              "with the index as fresh as the last rebuild_index made it (fresh_query_is_C09_query; fresh_index_search_eq_new / after_rebuild_eq_new: "
+              "with a fresh index resp. right after rebuild_index that is BackwardEngine::with_config on the present rule list); invariant: a cache "
+              "entry rendered for the present version holds the present rule state's answer, entries of earlier versions are dead "
+              "(kb_edit_moves_version_or_noop); key_needs_kb_version (F-C09g: without the "
+              "version in the key an add_rule between two askings is answered from the cache), rebuild_must_clear (the index is not in the key: "
+              "a verdict memoised on a stale index would survive rebuild_index); engine_history_admissible / "
               "engine_history_fresh — per step (StepFresh): a searching call hands back exactly the fresh engine's verdict AND facts, a hit "
               "the fresh verdict for an enumeration used earlier and the facts untouched, aggregates and every other step exactly the fresh "
               "engine's result; invariant EngCacheOK; hypothesis on the key: KeyDet = it determines QUERY and FACTS only "
@@ -158,7 +176,7 @@ LEVEL_TEXT = ("ENGINE WITH THE CONCRETE SEARCH (Theorems2.lean; unbounded: every
               "fresh engine's answer on the k-th pair — from the cache invariant; counterexample theorem for the pre-fix key (query "
               "string alone) and key_collision_stale: ANY two (query, facts) pairs with different answers and one key give a stale second answer. Tied to the code by comparing every query of generated histories with a freshly built engine inside the "
               "harness and by running the cache model on the observed keys (hit/verdict prediction).")
-LEVEL_NOTE = ("The search inside the engine model is C09's (tied there and here by differential testing); the rule set is fixed per engine; "
+LEVEL_NOTE = ("The search inside the engine model is C09's (tied there and here by differential testing); negated goals with the literal null are outside it; "
               "text-level injectivity of the key rendering is assumed; with a RETE engine attached only the absence of surviving state is "
               "modelled, the effect of the attachment on one search is checked, not proved. In the older cache-model theorems the search is abstract. Trusted: Lean kernel + {propext, Classical.choice, Quot.sound}; "
               "injectivity of the rendered key; harness fresh-engine comparison; RETE-attached proof-graph cache is C17's.")
